@@ -1,6 +1,7 @@
 import OdakProofs.Lemmas.Slicing
 import OdakProofs.Lemmas.GenSlicers
 import OdakProofs.Lemmas.GenDefocus
+import OdakProofs.Lemmas.GenLossObjects
 
 /-! # C16 – depth-plane slicing partitions the image exactly
   `multiplane_loss.set_targets` / `perceptual_multiplane_loss.set_targets` (masks by rounded depth)
@@ -384,5 +385,77 @@ theorem C16_gen_defocus_all_guards_false (planes L : Nat) (ratio mult : ℝ) (ca
   rw [defocusTargetM_eq, defocusTargetP_eq]
   exact ⟨C16_defocus_all_guards_false planes L ratio mult cacheSum cache mask i hg,
     C16_defocus_all_guards_false planes L ratio mult cacheSum cache mask i hg⟩
+
+end Odak
+
+/-! ## The OBJECTS `multiplane_loss` / `perceptual_multiplane_loss` regenerated from the Python source on this run (work package 13)
+  (`OdakModel/Generated/LossObjects.lean`, written by `harness/translate/lossobjects.py`: EVERY attribute the classes store anywhere is a
+  field; `__init__`, `get_targets`, `__call__` are step functions over (attributes, heap of tensor objects); `set_targets` and
+  `add_defocus_blur` - whose per-pixel content is the subject of the theorems above - enter by their recomputed effect signatures).
+  These theorems are about WHAT `get_targets` hands out and what `__call__` depends on, for every list of calls.  They stop compiling when
+  `get_targets` memoises its tuple or hands out an attribute without `clone`, when `__call__` keeps something between calls, or when a
+  class gains an attribute. -/
+namespace Odak
+open Gen
+variable {T R : Type} [DecidableEq R]
+set_option linter.unusedSectionVars false
+
+/-- the regenerated state structures have exactly the reviewed attributes -/
+theorem C16_gen_loss_object_attributes : mplFields = mplObjFields ∧ pmplFields = pmplObjFields := ⟨rfl, rfl⟩
+
+/-- **`get_targets` is a pure function of the constructor arguments, for every list of calls, and hands out copies**: on a
+    `multiplane_loss` built by the regenerated `__init__`, in ANY list of calls (`get_targets`, `__call__`, and the caller overwriting any
+    tensor he can name - his own image and depth map, everything `get_targets` returned earlier) every `get_targets` returns
+    `mplTargets`: the contents `set_targets` / `add_defocus_blur` computed from the constructor arguments, the depth divided by the divider.
+    What it returns are VALUES (type `T × T × T`, not heap locations): new tensors that share nothing with the object; every `__call__`
+    returns `mplLoss` of the masks and its own arguments -/
+theorem C16_gen_get_targets_every_call_list (E : LossObjOps T R) (a : MplArgs R) (h : Heap T) (o : MplObj T R) (h' : Heap T)
+    (hi : mplInit E a h = some (o, h')) :
+    ∃ tv fv dv mv, mplInitCall E a h = some (o.toSelf, h', (), mplInitLog a) ∧
+      ∀ (xs : List (LCall T)) (zs : List (LRet T)), (∀ x ∈ xs, x.valid o) →
+        runSteps (mplRefStep E o tv fv dv mv) () xs = some ((), zs) →
+        ∃ h'', runSteps (mplStep E) (o.toSelf, h') xs = some ((o.toSelf, h''), zs) := by
+  obtain ⟨tv, fv, dv, mv, inv, -⟩ := mplInit_inv E a h o h' hi
+  refine ⟨tv, fv, dv, mv, gen_mplInitG_eq E a h o h' hi, fun xs zs hv href => ?_⟩
+  obtain ⟨h'', e, -⟩ := mpl_run E o tv fv dv mv xs h' inv hv zs href
+  exact ⟨h'', e⟩
+
+/-- one `get_targets` call: the attributes and every object are left as they are (the returned tensors are not the attributes) -/
+theorem C16_gen_get_targets_returns_copies (E : LossObjOps T R) (o : MplObj T R) (h : Heap T) (tv fv dv mv : T) (inv : MplInv o h tv fv dv mv) :
+    mplGetTargetsG E o.toSelf h = some (o.toSelf, h, mplTargets E o tv fv dv, []) ∧
+    (mplTargets E o tv fv dv).1 = tv ∧ (mplTargets E o tv fv dv).2.1 = fv :=
+  ⟨gen_mplGetTargetsG_eq E o h tv fv dv mv inv, rfl, rfl⟩
+
+/-- the four objects the loss reads are its own: `__init__` creates them (the caller's image stays referenced as `target_image`, which
+    neither `get_targets` nor `__call__` reads; the caller's depth map is not kept) and leaves every object of the caller untouched -/
+theorem C16_gen_targets_are_private_objects (E : LossObjOps T R) (a : MplArgs R) (h : Heap T) (o : MplObj T R) (h' : Heap T)
+    (hi : mplInit E a h = some (o, h')) :
+    h.size ≤ o.targets ∧ h.size ≤ o.focus_target ∧ h.size ≤ o.target_depth ∧ h.size ≤ o.masks ∧ o.target_image = a.target_image ∧
+      ∀ l, l < h.size → h'.get l = h.get l := by
+  obtain ⟨tv, fv, dv, mv, -, h1, h2, h3, h4, h5, h6⟩ := mplInit_inv E a h o h' hi
+  exact ⟨h1, h2, h3, h4, h5, h6⟩
+
+/-- the same for `perceptual_multiplane_loss`: for every list of calls from a state in which its four objects hold (tv, fv, dv, mv),
+    `get_targets` returns copies of (tv, fv, dv / divider) and `__call__` - which stores nothing - a value computed from the attributes it
+    reads and its own arguments -/
+theorem C16_gen_perceptual_get_targets_every_call_list (E : LossObjOps T R) (o : PmplObj T R) (tv fv dv mv : T) (h : Heap T)
+    (inv : PmplInv o h tv fv dv mv) (xs : List (LCall T)) (zs : List (LRet T)) (hv : ∀ x ∈ xs, x.validP o)
+    (href : runSteps (pmplRefStep E o tv fv dv mv) () xs = some ((), zs)) :
+    ∃ h', runSteps (pmplStep E) (o.toSelf, h) xs = some ((o.toSelf, h'), zs) := by
+  obtain ⟨h', e, -⟩ := pmpl_run E o tv fv dv mv xs h inv hv zs href
+  exact ⟨h', e⟩
+
+/-- `__call__` of both classes is history independent: after ANY list of earlier calls it returns the value of the reference semantics,
+    which looks at the constructed object and the arguments of this call only -/
+theorem C16_gen_loss_call_history_independent (E : LossObjOps T R) (o : MplObj T R) (tv fv dv mv : T) (h : Heap T) (inv : MplInv o h tv fv dv mv)
+    (pre : List (LCall T)) (hv : ∀ x ∈ pre, x.valid o) (zs : List (LRet T)) (hpre : runSteps (mplRefStep E o tv fv dv mv) () pre = some ((), zs))
+    (image target : T) (plane : Option Int) :
+    ∃ h', runSteps (mplStep E) (o.toSelf, h) pre = some ((o.toSelf, h'), zs) ∧
+      (mplCallG E o.toSelf h' image target plane).map (fun r => r.2.2.1) = (mplCallG E o.toSelf h image target plane).map (fun r => r.2.2.1) ∧
+      (mplCallG E o.toSelf h' image target plane).map (fun r => r.2.2.1) = mplLoss E o mv image target plane := by
+  obtain ⟨h', e, inv'⟩ := mpl_run E o tv fv dv mv pre h inv hv zs hpre
+  refine ⟨h', e, ?_, ?_⟩
+  · rw [gen_mplCallG_eq E o h' tv fv dv mv inv', gen_mplCallG_eq E o h tv fv dv mv inv]; cases mplLoss E o mv image target plane <;> simp
+  · rw [gen_mplCallG_eq E o h' tv fv dv mv inv']; cases mplLoss E o mv image target plane <;> simp
 
 end Odak
